@@ -1408,6 +1408,16 @@ theorem splitLoop_eq : ∀ (script pre post : List Sh) (var : String) (arms : Li
       obtain ⟨spec, hs⟩ := ih a b v' a' hr
       exact ⟨spec, by rw [hs, ← hpre, ← hv, ← ha, ← hb]; rfl⟩
 
+set_option linter.unusedSimpArgs false in
+theorem pureRun_evs (s : Sh) (st : St) : (pureRun s st).evs = st.evs := by
+  cases s <;> simp [pureRun, okSt, St.set]
+  case exportVar v w => cases w <;> simp [St.set]
+
+theorem pureRunBlock_evs (b : List Sh) (st : St) : (pureRunBlock b st).evs = st.evs := by
+  induction b generalizing st with
+  | nil => rfl
+  | cons s r ih => simp only [pureRunBlock]; rw [ih, pureRun_evs]
+
 def badFlagOK (script : List Sh) : Bool :=
   match splitLoop script with
   | some (pre, (_, arms), _) =>
@@ -1433,18 +1443,7 @@ theorem run_bad_flag (script : List Sh) (h : badFlagOK script = true) (i : Inv) 
       cases hs : selectArm arms ['?'] with
       | none => rw [hs] at hq; simp at hq
       | some body => rw [hs] at hq; exact ⟨body, rfl, hq⟩
-    have hpure : (pureRunBlock pre (St.init i)).evs = i.evs := by
-      have : ∀ (b : List Sh) (st : St), (pureRunBlock b st).evs = st.evs := by
-        intro b
-        induction b with
-        | nil => intro st; rfl
-        | cons s r ih =>
-          intro st
-          simp only [pureRunBlock]
-          rw [ih]
-          cases s <;> simp [pureRun, okSt, St.set]
-          case exportVar v w => cases w <;> simp [St.set]
-      rw [this]; rfl
+    have hpure : (pureRunBlock pre (St.init i)).evs = i.evs := by rw [pureRunBlock_evs]; rfl
     unfold run scriptTree
     rw [hscript, execBlock_pure_append pre _ _ hpre]
     simp only [execBlock, exec]
@@ -1464,5 +1463,280 @@ theorem run_bad_flag (script : List Sh) (h : badFlagOK script = true) (i : Inv) 
     · exact absurd hbad hno
     · rw [hex]
       simp [interp, Code.eval]
+
+/-! ### stray operands, for every list of valid option events -/
+
+def loopSt (var : String) (ev : Ev) (evs : List Ev) (st : St) : St :=
+  { ((st.set var [.lit ev.opt]).set "OPTARG" (match ev.arg with | some k => [.optarg k] | none => [])) with evs := evs }
+
+theorem loopEvs_cons' (var : String) (body : Ev → St → Tree Res) (ev : Ev) (evs : List Ev) (st : St) :
+    loopEvs var body (ev :: evs) st = seqRes (body ev (loopSt var ev evs st)) (loopEvs var body evs) := rfl
+
+set_option linter.unusedSimpArgs false in
+theorem pureRun_nrest (s : Sh) (st : St) : (pureRun s st).nrest = st.nrest := by
+  cases s <;> simp [pureRun, okSt, St.set]
+  case exportVar v w => cases w <;> simp [St.set]
+
+theorem pureRunBlock_nrest (b : List Sh) (st : St) : (pureRunBlock b st).nrest = st.nrest := by
+  induction b generalizing st with
+  | nil => rfl
+  | cons s r ih => simp only [pureRunBlock]; rw [ih, pureRun_nrest]
+
+theorem loopEvs_norm (o : Oracle) (inv : Nat) (var : String) (body : Ev → St → Tree Res) (n : Nat) :
+    ∀ (evs : List Ev), (∀ ev ∈ evs, ∀ st, st.nrest = n → ∃ st', body ev st = .ret (.norm st') ∧ st'.nrest = n) →
+      ∀ (st : St) (d : Dyn), st.nrest = n →
+        ∃ st', interp o inv (loopEvs var body evs st) d = (.norm st', d) ∧ st'.nrest = n := by
+  intro evs
+  induction evs with
+  | nil =>
+    intro _ st d hn
+    exact ⟨_, rfl, hn⟩
+  | cons ev evs ih =>
+    intro hb st d hn
+    rw [loopEvs_cons']
+    unfold seqRes
+    rw [interp_bind]
+    obtain ⟨st1, h1, hn1⟩ := hb ev (by simp) (loopSt var ev evs st) hn
+    rw [h1]
+    simp only [interp]
+    exact ih (fun e he => hb e (by simp [he])) st1 d hn1
+
+def endsExit1 : List Sh → Bool
+  | [] => false
+  | [.exit 1] => true
+  | s :: r => isPureSh s && endsExit1 r
+
+theorem execBlock_endsExit1 : ∀ (b : List Sh) (st : St), endsExit1 b = true → execBlock b st = .ret (.exit (.lit 1)) := by
+  intro b
+  induction b with
+  | nil => intro st h; simp [endsExit1] at h
+  | cons s r ih =>
+    intro st h
+    by_cases hr : r = []
+    · subst hr
+      match s, h with
+      | .exit 1, _ => simp [execBlock, exec, seqRes, Tree.bind]
+      | .setE _, h => simp [endsExit1] at h
+      | .setX, h => simp [endsExit1] at h
+      | .assign _ _, h => simp [endsExit1] at h
+      | .assignPwd _, h => simp [endsExit1] at h
+      | .assignScriptDir _, h => simp [endsExit1] at h
+      | .exportVar _ _, h => simp [endsExit1] at h
+      | .echo _ _, h => simp [endsExit1] at h
+      | .shiftOptind, h => simp [endsExit1] at h
+    · have h' : isPureSh s = true ∧ endsExit1 r = true := by
+        cases r with
+        | nil => exact absurd rfl hr
+        | cons s2 r2 =>
+          cases s <;> simp_all [endsExit1, isPureSh]
+      simp only [execBlock, exec_pure s st h'.1, seqRes_ret_norm]
+      exact ih _ h'.2
+
+theorem toksChars_map_ch (l : List Char) : toksChars (l.map Tok.ch) = some l := by
+  induction l with
+  | nil => rfl
+  | cons c r ih => simp [toksChars, ih]
+
+theorem digitsAux_length (f m : Nat) (acc : List Char) : acc.length ≤ (digitsAux f m acc).length := by
+  induction f generalizing m acc with
+  | zero => simp [digitsAux]
+  | succ f ih =>
+    simp only [digitsAux]
+    split
+    · simp
+    · exact Nat.le_trans (by simp) (ih _ _)
+
+theorem natChars_ne_zero (n : Nat) (hn : n ≠ 0) : natChars n ≠ ['0'] := by
+  unfold natChars
+  simp only [digitsAux]
+  by_cases h10 : n / 10 = 0
+  · simp only [h10, if_true]
+    have hlt : n < 10 := by omega
+    have : n % 10 = n := Nat.mod_eq_of_lt hlt
+    rw [this]
+    intro hc
+    have : digitChar n = '0' := by simpa using hc
+    have hcases : n = 1 ∨ n = 2 ∨ n = 3 ∨ n = 4 ∨ n = 5 ∨ n = 6 ∨ n = 7 ∨ n = 8 ∨ n = 9 := by omega
+    rcases hcases with h | h | h | h | h | h | h | h | h <;> subst h <;> revert this <;> decide
+  · simp only [h10, if_false]
+    intro hc
+    have hlen := congrArg List.length hc
+    have hpos : 0 < n := Nat.pos_of_ne_zero hn
+    -- fuel n > 0 because n ≥ 10: one more digit is produced
+    obtain ⟨f, hf⟩ : ∃ f, n = f + 1 := ⟨n - 1, by omega⟩
+    rw [hf] at hlen
+    simp only [digitsAux] at hlen
+    split at hlen
+    · simp at hlen
+    · have := digitsAux_length f ((f + 1) / 10 / 10) (digitChar ((f + 1) / 10 % 10) :: [digitChar ((f + 1) % 10)])
+      simp only [List.length_cons, List.length_nil] at this hlen
+      omega
+
+def strayGuard : List Sh → Bool
+  | .shiftOptind :: .ite (.strNe a b) thn _ :: _ => decide (a.parts = [.argc]) && decide (b.parts = [.lit "0"]) && endsExit1 thn
+  | _ => false
+
+def optLetters : List String := ["d", "o", "c", "r"]
+
+def strayOK (script : List Sh) : Bool :=
+  match splitLoop script with
+  | some (pre, (_, arms), post) =>
+    isPureBlock pre &&
+      optLetters.all (fun l => match selectArm arms l.toList with | some b => isPureBlock b | none => true) &&
+      strayGuard post
+  | none => false
+
+theorem run_stray (script : List Sh) (h : strayOK script = true) (i : Inv) (o : Oracle) (inv : Nat) (fs : FS)
+    (hvalid : ∀ ev ∈ i.evs, ev.opt ∈ optLetters) (hn : i.nrest ≠ 0) :
+    (run script i o inv fs).code = 1 ∧ (run script i o inv fs).log = [] ∧ (run script i o inv fs).fs = fs := by
+  unfold strayOK at h
+  cases hsp : splitLoop script with
+  | none => rw [hsp] at h; simp at h
+  | some x =>
+    obtain ⟨pre, ⟨var, arms⟩, post⟩ := x
+    rw [hsp] at h
+    simp only [Bool.and_eq_true, List.all_eq_true] at h
+    obtain ⟨⟨hpre, harms⟩, hpost⟩ := h
+    obtain ⟨spec, hscript⟩ := splitLoop_eq script pre post var arms hsp
+    have hpureEvs : (pureRunBlock pre (St.init i)).evs = i.evs := by rw [pureRunBlock_evs]; rfl
+    have hnr : (pureRunBlock pre (St.init i)).nrest = i.nrest := by rw [pureRunBlock_nrest]; rfl
+    -- the loop only changes variables
+    have hbody : ∀ ev ∈ i.evs, ∀ st : St, st.nrest = i.nrest →
+        ∃ st', execArms arms ev.opt.toList (okSt st) = .ret (.norm st') ∧ st'.nrest = i.nrest := by
+      intro ev hev st hst
+      have hl := hvalid ev hev
+      rw [execArms_select]
+      have := harms ev.opt hl
+      cases hsel : selectArm arms ev.opt.toList with
+      | none => exact ⟨okSt st, rfl, hst⟩
+      | some b =>
+        rw [hsel] at this
+        exact ⟨_, execBlock_pure b _ this, by rw [pureRunBlock_nrest]; exact hst⟩
+    obtain ⟨st1, hloop, hn1⟩ := loopEvs_norm o inv var (fun ev st' => execArms arms ev.opt.toList (okSt st')) i.nrest
+      i.evs hbody (pureRunBlock pre (St.init i)) { fs := fs, log := [] } hnr
+    -- what follows the loop
+    match post, hpost with
+    | .shiftOptind :: .ite (.strNe a b) thn els :: rest, hpost =>
+      simp only [strayGuard, Bool.and_eq_true, decide_eq_true_eq] at hpost
+      obtain ⟨⟨ha, hb⟩, hthn⟩ := hpost
+      unfold run scriptTree
+      rw [hscript, execBlock_pure_append pre _ _ hpre]
+      simp only [execBlock, exec]
+      rw [hpureEvs]
+      unfold seqRes
+      rw [interp_bind, interp_bind, hloop]
+      simp only [Tree.bind, interp_bind]
+      -- the test `[ $# != 0 ]`
+      have hexp_a : expand (okSt { st1 with shifted := true }) a = [.num i.nrest] := by
+        simp [expand, ha, expandPart, okSt, hn1]
+      have hexp_b : expand (okSt { st1 with shifted := true }) b = [.lit "0"] := by
+        simp [expand, hb, expandPart]
+      have hca : Val.chars? [Atom.num i.nrest] = some (natChars i.nrest) := by
+        simp [Val.chars?, Val.toks, Atom.toks, toksChars_map_ch]
+      have hcb : Val.chars? [Atom.lit "0"] = some ['0'] := by decide
+      have hne : (natChars i.nrest == ['0']) = false := by
+        simpa using natChars_ne_zero i.nrest hn
+      simp only [testTree, hexp_a, hexp_b, staticOrAsk, hca, hcb, hne, Tree.bind, interp, Bool.not_false, if_true]
+      rw [execBlock_endsExit1 thn _ hthn]
+      simp [interp, Code.eval]
+
+/-! ### what `getopts "d:o:cr"` can report -/
+
+theorem specLookup_letters (c : Char) (b : Bool) (h : specLookup "d:o:cr".toList c = some b) :
+    String.singleton c ∈ optLetters := by
+  have hs : "d:o:cr".toList = ['d', ':', 'o', ':', 'c', 'r'] := by decide
+  rw [hs] at h
+  by_cases h1 : c = 'd'
+  · subst h1; decide
+  by_cases h2 : c = 'o'
+  · subst h2; decide
+  by_cases h3 : c = 'c'
+  · subst h3; decide
+  by_cases h4 : c = 'r'
+  · subst h4; decide
+  exfalso
+  have e1 : ¬ ('d' = c) := fun e => h1 e.symm
+  have e2 : ¬ ('o' = c) := fun e => h2 e.symm
+  have e3 : ¬ ('c' = c) := fun e => h3 e.symm
+  have e4 : ¬ ('r' = c) := fun e => h4 e.symm
+  by_cases h5 : c = ':'
+  · subst h5; simp [specLookup] at h
+  · have e5 : ¬ (':' = c) := fun e => h5 e.symm
+    simp [specLookup, e1, e2, e3, e4, e5] at h
+
+def EvOK (ev : Ev) : Prop := ev.opt = "?" ∨ ev.opt ∈ optLetters
+
+theorem clusterEvs_ok : ∀ (cs : List Char) (rest : List String) (k : Nat),
+    ∀ ev ∈ (clusterEvs "d:o:cr".toList cs rest k).1, EvOK ev := by
+  intro cs
+  induction cs with
+  | nil => intro rest k ev h; simp [clusterEvs] at h
+  | cons c cs ih =>
+    intro rest k ev h
+    simp only [clusterEvs] at h
+    cases hl : specLookup "d:o:cr".toList c with
+    | none =>
+      rw [hl] at h
+      simp only [List.mem_cons] at h
+      rcases h with rfl | h
+      · exact Or.inl rfl
+      · exact ih rest k ev h
+    | some b =>
+      rw [hl] at h
+      have hc := specLookup_letters c b hl
+      cases b with
+      | false =>
+        simp only [List.mem_cons] at h
+        rcases h with rfl | h
+        · exact Or.inr hc
+        · exact ih rest k ev h
+      | true =>
+        simp only at h
+        split at h
+        · simp only [List.mem_singleton] at h; subst h; exact Or.inr hc
+        · split at h
+          · simp only [List.mem_singleton] at h; subst h; exact Or.inl rfl
+          · simp only [List.mem_singleton] at h; subst h; exact Or.inr hc
+
+theorem getoptsAux_ok : ∀ (fuel : Nat) (args : List String) (k : Nat),
+    ∀ ev ∈ (getoptsAux "d:o:cr".toList fuel args k).1, EvOK ev := by
+  intro fuel
+  induction fuel with
+  | zero => intro args k ev h; simp [getoptsAux] at h
+  | succ f ih =>
+    intro args k ev h
+    simp only [getoptsAux] at h
+    split at h
+    · simp at h
+    · split at h
+      · split at h
+        · simp at h
+        · simp only [List.mem_append] at h
+          rcases h with h | h
+          · exact clusterEvs_ok _ _ _ ev h
+          · exact ih _ _ ev h
+      · simp at h
+
+theorem getoptsParse_ok (args : List String) : ∀ ev ∈ (getoptsParse "d:o:cr" args).1.evs, EvOK ev := by
+  intro ev h
+  simp only [getoptsParse] at h
+  exact getoptsAux_ok _ _ _ ev h
+
+/-- **every argument vector**: if `getopts "d:o:cr"` reports `?` anywhere (unknown letter, missing option
+argument) a script with `badFlagOK` exits 10, otherwise if operands are left over a script with `strayOK`
+exits 1 — in both cases before any step and without touching the file system. -/
+theorem run_args_rejected (script : List Sh) (hb : badFlagOK script = true) (hs : strayOK script = true)
+    (args : List String) (o : Oracle) (inv : Nat) (fs : FS) :
+    let i := (getoptsParse "d:o:cr" args).1
+    let out := run script i o inv fs
+    ((∃ ev ∈ i.evs, ev.opt = "?") → out.code = 10 ∧ out.log = [] ∧ out.fs = fs) ∧
+    ((¬ ∃ ev ∈ i.evs, ev.opt = "?") → i.nrest ≠ 0 → out.code = 1 ∧ out.log = [] ∧ out.fs = fs) := by
+  simp only
+  refine ⟨fun hq => run_bad_flag script hb _ o inv fs hq, fun hno hn => ?_⟩
+  apply run_stray script hs _ o inv fs ?_ hn
+  intro ev hev
+  rcases getoptsParse_ok args ev hev with h | h
+  · exact absurd ⟨ev, hev, h⟩ hno
+  · exact h
 
 end FaxVerif.C16
